@@ -75,6 +75,11 @@ def r1_strip_attrs_docs(toks, log, where):
                     k = e + 1
                     n += 1
                     continue
+                if re.match(r"#\[\s*verifier::", txt):
+                    # written by a unit template (signature given with `sig`); /repo has no such attributes
+                    out.extend(toks[k:e + 1])
+                    k = e + 1
+                    continue
                 raise Unsupported("attribute %s in %s" % (txt[:60], where))
         if t.kind == "lcomment" and (t.text.startswith("///") or t.text.startswith("//!")):
             k += 1
